@@ -21,7 +21,12 @@ pub enum Outcome {
 static LAST_PANIC: Mutex<Option<String>> = Mutex::new(None);
 static HOOK_SET: std::sync::Once = std::sync::Once::new();
 
-pub const MAX_STEPS: usize = 1_000_000;
+/// Scheduling decisions per execution before the runtime calls it a livelock. One execution of the
+/// sequence explorer carries the extra check of its node (C04: every cursor program of the stated
+/// length, a few decisions per iterator call), which alone takes more than 10^6 decisions for
+/// programs of length 4; a subject that really spins is ended by the progress watchdog long before
+/// it has made 10^7 decisions.
+pub const MAX_STEPS: usize = 10_000_000;
 
 pub fn shuttle_config() -> Config {
     let mut c = Config::new();
